@@ -133,6 +133,15 @@ def gen(rnd, family):
         n = rnd.choice([0, 1, 5, 6, 11, 40])
         data = [rnd.randint(-3, 3) for _ in range(n)]
         chunks = [rnd.randint(1, 7) for _ in range(12)]
+        if rnd.random() < 0.4:
+            # complex FFT filter(s) on real-valued data
+            cur = add("src_c", data=data, chunks=chunks)
+            for _ in range(rnd.randint(1, 2)):
+                cur = add("fftfiltc", [(cur, 1)], taps=[rnd.randint(-2, 2) or 1 for _ in range(rnd.choice([1, 2, 3, 4]))])
+            add("sink", [(cur, 1)])
+            order = list(range(1, len(nodes) + 1))
+            rnd.shuffle(order)
+            return {"nodes": nodes, "order": order, "stream_bytes": sb, "family": family}
         cur = add("src_f", data=data, chunks=chunks)
         for _ in range(rnd.randint(1, 2)):
             if rnd.random() < 0.5:
@@ -258,6 +267,7 @@ def small_graphs():
     gs.append({"family": "sys_diamond", "stream_bytes": 4096, "nodes": [N("src_big", data=[1, 2]), N("tee", [(1, 1)]), N("add", [(2, 1), (2, 2)]), N("sink", [(3, 1)])]})
     # blocks that wait for more than one sample: the source delivers in two instalments
     gs.append({"family": "sys_fft", "stream_bytes": 4096, "nodes": [N("src_f", data=[1, 2, 3, 4, 5, 6], chunks=[3, 3]), N("fftfiltf", [(1, 1)], taps=[1, 2, 3]), N("sink", [(2, 1)])]})
+    gs.append({"family": "sys_fftc", "stream_bytes": 4096, "nodes": [N("src_c", data=[1, 2, 3, 4, 5, 6, 7], chunks=[3, 2, 2]), N("fftfiltc", [(1, 1)], taps=[1, 2, 3]), N("sink", [(2, 1)])]})
     gs.append({"family": "sys_fir", "stream_bytes": 4096, "nodes": [N("src_f", data=[1, 2, 3, 4, 5, 6, 7], chunks=[2, 3, 2]), N("firf", [(1, 1)], taps=[1, -1, 2], deci=2), N("sink", [(2, 1)])]})
     for g in gs:
         g["order"] = list(range(1, len(g["nodes"]) + 1))
